@@ -27,6 +27,16 @@ fn main() {
         usage();
     }
     ctx::install_panic_hook();
+    // The monitors clone and drop compressor / decoder objects (hundreds of KiB each) millions of
+    // times. With glibc's defaults every such free at the top of the heap trims it (brk) and the
+    // next allocation grows and re-faults it, which dominated the run time of the exhaustive
+    // enumerations. Keep freed memory in the process instead.
+    #[cfg(all(target_os = "linux", target_env = "gnu", not(miri)))]
+    unsafe {
+        libc::mallopt(libc::M_TRIM_THRESHOLD, 1 << 30);
+        libc::mallopt(libc::M_MMAP_THRESHOLD, 32 << 20);
+        libc::mallopt(libc::M_TOP_PAD, 64 << 20);
+    }
     let mut seed = 1u64;
     let mut tier = Tier::Quick;
     let mut shard = 0u64;
